@@ -497,6 +497,15 @@ class DocSync:
                     logger.more("Skipped keys: {}".format(", ".join(self.skipped_keys)))
 
 
+def _make_ignore(patterns):
+    """Return an ignore function for copytree that skips all names matching a pattern."""
+
+    def ignore(path, names):
+        return {name for name in names if any(re.match(p, name) for p in patterns)}
+
+    return ignore
+
+
 def _sync_job_workspaces(
     src, dst, strategy, exclude, copy, copytree, recursive=True, deep=False, subdir=""
 ):
@@ -515,7 +524,7 @@ def _sync_job_workspaces(
         if os.path.isfile(fn_src):
             copy(fn_src, fn_dst)
         elif recursive:
-            copytree(fn_src, fn_dst)
+            copytree(fn_src, fn_dst, ignore=_make_ignore(exclude) if exclude else None)
         else:
             logger.warning(f"Skip directory '{fn_src}'.")
     for fn in diff.diff_files:
@@ -677,9 +686,7 @@ def sync_jobs(
         proxy.copytree(
             src.path,
             dst.path,
-            ignore=lambda path, names: {
-                name for name in names if any(re.match(p, name) for p in exclude)
-            },
+            ignore=_make_ignore(exclude),
         )
     elif os.path.isdir(src.path):
         if not dry_run:
@@ -869,10 +876,20 @@ def sync_projects(
     logger.more(f"Synchronizing {N} jobs.")
     count = ddict(int)
 
+    if exclude is None:
+        clone_copytree = proxy.copytree
+    else:
+        # Excluded files must not be created in newly cloned jobs either.
+        # (A copy, because sync_jobs appends its internal patterns to a given list.)
+        ignore = _make_ignore(list(exclude) if isinstance(exclude, list) else [exclude])
+
+        def clone_copytree(src, dst):
+            proxy.copytree(src, dst, ignore=ignore)
+
     def _clone_or_sync(src_job):
         """Clone a job if it does not exist, or sync if it exists."""
         try:
-            destination.clone(src_job, copytree=proxy.copytree)
+            destination.clone(src_job, copytree=clone_copytree)
             logger.more(f"Cloned job '{src_job}'.")
             return 1
         except DestinationExistsError:
